@@ -567,10 +567,16 @@ func (b *BoxFields) PageValues() (pr.Page, pr.Page) {
 		}
 	}
 	if fistChild != nil {
-		if childStart, _ := fistChild.PageValues(); childStart != "" {
+		childStart, childEnd := fistChild.PageValues()
+		if lastChild != fistChild {
+			// with only one child, calling PageValues twice at each level
+			// would take a time exponential in the nesting depth
+			_, childEnd = lastChild.PageValues()
+		}
+		if childStart != "" {
 			start = childStart
 		}
-		if _, childEnd := lastChild.PageValues(); childEnd != "" {
+		if childEnd != "" {
 			end = childEnd
 		}
 	}
